@@ -64,7 +64,8 @@ type histEnv struct {
 	seen                map[string]int
 	mu                  sync.Mutex
 	onPrim              func(rec CallRec)
-	fired               bool // the injected fault has fired (reset by the caller per step)
+	fired               bool  // the injected fault has fired (reset by the caller per step)
+	apiActive           int32 // >0 while a BackupFS method call is in progress (conc stream)
 }
 
 func sigKey(fsTag, method string, args []string) string {
